@@ -733,7 +733,7 @@ class set_expr(object):
 
 def key_expr(e):
     if e.__class__ == ExprId:
-        return [ 1, e.name, e.size ]
+        return [ 1, e.name, e.size, bool(e.is_reg) ]
     elif e.__class__ == ExprCond:
         return [ 2, key_expr(e.cond), key_expr(e.src1), key_expr(e.src2) ]
     elif e.__class__ == ExprMem:
